@@ -318,6 +318,9 @@ func (m *Monitor) After(g *Gen, line, out string) {
 			detail := g.env.lastPanic
 			if out == "panic" {
 				cls = "panic:" + w[0] + ":" + panicKind(g.env.lastPanic)
+				if g.env.lastPanicSite != "" && g.env.lastPanicSite != "?" {
+					cls += "@" + g.env.lastPanicSite
+				}
 			}
 			m.report(g, cls, fmt.Sprintf("%s did not complete: %s %.200s", w[0], out, detail))
 		}
@@ -2033,6 +2036,7 @@ func (m *Monitor) checkC01(g *Gen, w []string, out string, b, a *snapshot) {
 	}
 	if !m.loopMode && w[0] == "end" && out == "ok" {
 		for _, c := range g.chains {
+			newest := map[string]uint64{}
 			for _, r := range appliedEvents(b, a, c) {
 				switch ev := r.event.(type) {
 				case *types.SendToHubEvent:
@@ -2044,6 +2048,15 @@ func (m *Monitor) checkC01(g *Gen, w []string, out string, b, a *snapshot) {
 					ek := fmt.Sprintf("exec/%s/%s/%d", c, ev.ExternalCoinId, ev.BatchNonce)
 					if m.terminal[ek] != "" {
 						continue
+					}
+					// … and, on ethereum/bsc, never after a newer batch of the token: a claim that says so (the ledger profile
+					// takes its execution claims out of thin air) reports something the contract cannot have done
+					if c != "minter" && ev.BatchNonce < newest[ev.ExternalCoinId] {
+						g.stats["C01:execution-claim-for-a-batch-older-than-one-executed-in-this-block"]++
+						continue
+					}
+					if ev.BatchNonce > newest[ev.ExternalCoinId] {
+						newest[ev.ExternalCoinId] = ev.BatchNonce
 					}
 					m.terminal[ek] = "executed"
 					for _, x := range b.batches[c] {
